@@ -15,6 +15,8 @@ for sid in ids:
         print(sid, "RETIRED:", m["retired"][:100], flush=True); continue
     checks = m.get("checks_run") or [m["property"]]
     r = subprocess.run([V + "/seedrun.py", d + "/patch.diff"] + checks, capture_output=True, text=True)
+    if "refusing" in r.stdout or r.returncode == 2 and "patch does not apply" not in r.stdout:
+        print(sid, "NOT RUN:", r.stdout.strip()[:200], flush=True); sys.exit(3)
     if "patch does not apply" in r.stdout:
         stale.append(sid); print(sid, "STALE (patch does not apply to the current tree)", flush=True); continue
     c = re.search(r"CAUGHT-BY: (.*)", r.stdout)
